@@ -74,6 +74,7 @@ type FuncContract struct {
 	AcquiresLevelDeclared bool
 	AcquiresLevel int // lowest lock level this function may acquire (0: acquires no levelled lock)
 	Aliases  bool // results may alias the arguments at arbitrary offsets (keep slice offsets symbolic)
+	Holds    []*Clause
 	AssumeAtLock []*Clause
 	Unverified bool
 	UnverifiedWhy string
@@ -225,6 +226,14 @@ func (cs *Contracts) LoadContractFile(path, pkg string, repoStyle bool) error {
 			cur.Props = strings.Fields(rest)
 		case "params":
 			cur.Params = strings.Fields(strings.ReplaceAll(rest, ",", " "))
+		case "holds":
+			// holds x.mu : the caller holds this mutex exclusively (checked at call sites)
+			e, err := ParseExpr(rest)
+			if err != nil {
+				return perr(err)
+			}
+			cur.Holds = append(cur.Holds, &Clause{Kind: kw, Expr: e, Src: rest, File: path, Line: lineNo})
+			cur.HasSpec = true
 		case "assume-at-lock":
 			// a fact about the guarded state, assumed right after the function's first Lock; an
 			// assumption (listed in the evidence), e.g. an ownership argument that is not mechanised
@@ -562,6 +571,23 @@ func parseTrace(rest string) (*TraceRule, error) {
 			return nil, err
 		}
 		tr.A = strings.Join(f, " ")
+	case "each":
+		// each EVENT satisfies EXPR   ($recv, $arg0.., $res0.. denote the event's operands)
+		idx := -1
+		for i, w := range f {
+			if w == "satisfies" {
+				idx = i
+			}
+		}
+		if idx != 1 {
+			return nil, fmt.Errorf("expected: each EVENT satisfies EXPR")
+		}
+		tr.A = f[0]
+		e, err := ParseExpr(strings.Join(f[2:], " "))
+		if err != nil {
+			return nil, err
+		}
+		tr.Cond = e
 	case "before", "notafter":
 		f, err = takeCond(f)
 		if err != nil {
